@@ -502,6 +502,43 @@ def body_input_orifice(env):
                           list(got[p][2].keys()) == ['outlet_temp'], key='group_flow_given_to_another_assembly')
 
 
+def body_summary(env):
+    """Orificing._summarize_group_data (glue between a finished sweep and the next distribute()): the core-wide bulk outlet
+    temperature it hands on -- distribute() scales the total flow with it -- is the flow-weighted mean over *all* assemblies
+    and *all* time points of the results table; group rows average the time points.  Flow rates and outlet temperatures are
+    symbolic; maxima fork."""
+    groups = list(env.params['groups'])     # group id per assembly (row order of group_data)
+    T = env.params['timepoints']
+    N = len(groups)
+    with env.patch(MODS):
+        res = np.empty((N * T, 6), dtype=object)
+        m, to = {}, {}
+        for t in range(T):
+            for a in range(N):
+                k = t * N + a
+                m[k] = env.pos('flow_t%d_a%d' % (t, a), hi=1e3)
+                to[k] = env.real('T_out_t%d_a%d' % (t, a), lo=300, hi=2000)
+                res[k] = [float(t), float(a), 1.0, m[k], to[k], to[k]]
+        if env.mode == 'replay':
+            res = res.astype(float)
+        gd = np.zeros((N, 3))
+        gd[:, 0] = range(N)
+        gd[:, 2] = groups
+        s_ = StubSelf(_bind=(om.Orificing, ['_summarize_group_data']), group_data=gd, _opt_col=5)
+        out = s_._summarize_group_data(res)
+        tot_m = sum(m.values())
+        env.eq('core-wide bulk outlet temperature = flow-weighted mean over every assembly and every time point',
+               out[-1, 0] * tot_m, sum(m[k] * to[k] for k in m), tol=1e-9, key='summary_not_over_all_time_points')
+        for k in m:
+            env.ge('core-wide peak >= outlet temperature of time point %d assembly %d' % (k // N, k % N), out[-1, 1], to[k],
+                   key='summary_not_over_all_time_points')
+        for g in sorted(set(groups)):
+            mem = [a for a in range(N) if groups[a] == g]
+            want = sum(sum(to[t * N + a] for a in mem) / len(mem) for t in range(T)) / T
+            env.eq('group %d: bulk outlet temperature averaged over its members and the time points' % g, out[g, 0], want, tol=1e-9,
+                   key='summary_not_over_all_time_points')
+
+
 def instances(tier):
     inst = []
     combos = [(2, 1), (2, 2), (3, 2), (3, 3)] if tier == 'quick' else [(2, 1), (2, 2), (3, 1), (3, 2), (3, 3), (4, 2), (4, 3)]
@@ -545,6 +582,9 @@ def instances(tier):
         inst.append(dict(label='orifice-input[rows=%s,ungrouped=%s,empty=%s]' % ('-'.join(map(str, ids)), '-'.join(map(str, ng_)) or 'none',
                                                                                  '-'.join(map(str, empty)) or 'none'),
                          body=body_input_orifice, params={'ids': ids, 'ng': ng_, 'empty': empty, 'npos': npos}))
+    for groups, T in (((0, 1), 1), ((0, 1), 2), ((0, 1, 1), 2)) + (() if tier == 'quick' else (((0, 0, 1), 3),)):
+        inst.append(dict(label='sweep-summary[groups=%s,time points=%d]' % ('-'.join(map(str, groups)), T), body=body_summary,
+                         params={'groups': groups, 'timepoints': T}, max_paths=20000, max_depth=200))
     return inst
 
 
